@@ -252,6 +252,9 @@ YACC_CORPUS = [
 
 
 # ---- mutations ------------------------------------------------------------
+SPACES = ["\x0b", "\x0c", "\r", "\x85", "\u200e", "\u200f", "\u2028", "\u2029", "\t"]
+
+
 def truncations(s):
     return [s[:i] for i in range(len(s) + 1)]
 
@@ -314,6 +317,11 @@ def neighbourhood(rng, s, n_trunc, n_inject, n_mut):
     ts = truncations(s)
     out += ts if len(ts) <= n_trunc else rng.sample(ts, n_trunc)
     for ch in rng.sample(MULTI, 2):
+        inj = inject_everywhere(s, ch)
+        out += inj if len(inj) <= n_inject else rng.sample(inj, n_inject)
+    # the parsers treat the Unicode Pattern_White_Space characters (and their line-separator
+    # subset) specially: inject each kind at every offset too
+    for ch in rng.sample(SPACES, 2):
         inj = inject_everywhere(s, ch)
         out += inj if len(inj) <= n_inject else rng.sample(inj, n_inject)
     for _ in range(n_mut):
